@@ -40,7 +40,7 @@ pub fn run(ctx: &Ctx) -> i32 {
     let start = g.nt("Aidl");
 
     let stats = par_cases(ctx, "docs", n_docs, budget, |i, rng, st| {
-        let cfg = GenCfg { max_members: if rng.chance(1, 10) { 14 } else { 6 }, ..GenCfg::default() };
+        let cfg = GenCfg { max_members: if rng.chance(1, 10) { 14 } else { 6 }, big: true, deep_types: true, repeat_method_names: true, ..GenCfg::default() };
         let d = gen::doc(rng, &cfg);
         let r = gen::render(&d);
         // the generator must produce well-formed documents (harness self-check, not a verdict)
